@@ -456,3 +456,37 @@ pub fn set_peer_params_native(mups: u32) -> u32 {
     }
     1
 }
+
+/// Native replay body for the E2 queries `e2_reset_idle_timeout` / `e2_set_close_timer` (C08).
+pub fn idle_close_timers_native(state: u8, has_idle: bool) -> u32 {
+    let mut conn = mk_conn(false, false);
+    set_state(&mut conn, state);
+    let now = crate::verif::mk_instant(51, 0).unwrap();
+    let marker = crate::verif::mk_instant(40, 0).unwrap();
+    conn.idle_timeout = if has_idle { Some(Duration::from_millis(10)) } else { None };
+    conn.timers.set(Timer::Idle, marker);
+    for space in [SpaceId::Initial, SpaceId::Handshake, SpaceId::Data] {
+        conn.timers.set(Timer::Idle, marker);
+        conn.reset_idle_timeout(now, space);
+        let got = conn.timers.get(Timer::Idle);
+        if !has_idle {
+            assert!(got == Some(marker), "idle timer touched although no idle timeout is in force");
+        } else if conn.state.is_closed() {
+            assert!(got.is_none(), "idle timer armed on a closed connection");
+        } else {
+            // 10 ms is far below 3 PTO (initial RTT 333 ms): the PTO floor decides
+            let floor = 3 * conn.pto(space);
+            assert!(floor > Duration::from_millis(10));
+            assert!(got == Some(now + floor), "idle timer must be now + max(idle timeout, 3 PTO)");
+            // and a long idle timeout decides when it exceeds 3 PTO
+            conn.idle_timeout = Some(Duration::from_secs(600));
+            conn.reset_idle_timeout(now, space);
+            assert!(conn.timers.get(Timer::Idle) == Some(now + Duration::from_secs(600)));
+            conn.idle_timeout = Some(Duration::from_millis(10));
+        }
+    }
+    conn.timers.stop(Timer::Close);
+    conn.set_close_timer(now);
+    assert!(conn.timers.get(Timer::Close) == Some(now + 3 * conn.pto(conn.highest_space)), "close timer must be now + 3 PTO");
+    1
+}
